@@ -1,10 +1,12 @@
 CHECK = {
     "suites": [suite("stream", "c13", 250, 1200, stdin=True, args=["-suite", "stream"], timeout={"quick": 600, "thorough": 2400}),
                suite("trees", "c13", 200, 2000, stdin=True, args=["-suite", "trees"], timeout={"quick": 600, "thorough": 2400})],
-    "gen": [{"pkg": "extract_c13", "out": "lean/ClusterVerif/Gen/C13.lean"}],
+    "gen": [{"pkg": "extract_c13", "out": "lean/ClusterVerif/Gen/C13.lean"},
+            {"pkg": "extract_c13flow", "out": "lean/ClusterVerif/Gen/C13Flow.lean"}],
     "lean_sources": ["ClusterVerif/Model/Pin.lean", "ClusterVerif/Gen/C13.lean", "ClusterVerif/Model/C13.lean",
                      "ClusterVerif/Spec/C13.lean", "ClusterVerif/Lemmas/C13.lean", "ClusterVerif/Lemmas/C13Log.lean", "ClusterVerif/Lemmas/C13Deliv.lean",
-                     "ClusterVerif/Model/C13Import.lean", "ClusterVerif/Lemmas/C13Import.lean"],
+                     "ClusterVerif/Model/C13Import.lean", "ClusterVerif/Lemmas/C13Import.lean",
+                     "ClusterVerif/Model/C13FlowOps.lean", "ClusterVerif/Gen/C13Flow.lean", "ClusterVerif/Model/C13Flow.lean"],
     "rule": "stream: synthetic raw-block streams (1-6 runs of equal-sized blocks, repeats, early/foreign roots; 5983..11969 four-byte blocks in the "
             "thorough tier) into single.New / sharding.New with shard limits at, one under and one over sums of block runs, 1-4 scripted allocations "
             "over 5 destinations, BlockPut faults (IPFS / RPC error, from the j-th put of a destination), BlockAllocate and Pin failures; "
@@ -47,8 +49,17 @@ META = {
             "minimal, blocks are added in post-order, the stream is closed under links and contains nothing but the root's DAG (+ MFS scaffold / empty dir), "
             "the seen-set keeps every CID once, every visible entry is linked under its name in name order, root is a directory iff wrap or tree, and stream "
             "and root do not depend on the DAG service. The delivered DAG's structure is compared with the model's tree per case; hashing / encoding / "
-            "non-size chunkers stay with the Go read-back oracles.",
+            "non-size chunkers stay with the Go read-back oracles. "
+            "Round 8: the statements of adder/single/dag_service.go (New, Add, Finalize) are regenerated as an operation list that a Lean interpreter "
+            "executes against the same scripted cluster side; theorem single_flow_refines: the program read from the source IS the model's runSingle "
+            "for every stream / allocation / fault script (so no_pin_on_failure, pins_on_success_single, bookkeeping_partial speak about that program), "
+            "and the reordered programs (dests reset before the pin takes them, allocations not assigned, recursive mode not forced) are refuted against "
+            "the Spec by a concrete add; an unrecognised statement fails the obligation. shard.go (AddLink size accounting, Flush: makeDAG - AddMany - pin "
+            "fields - Pin, Size / Limit) and Adder.FromFiles (format switch, construction error, wrap, entry loop with cancellation test, CAR break, "
+            "iterator error, Finalize) are regenerated as operation orders and compared; FromFiles is modelled over abstract entries with theorems: a "
+            "failing entry, a cancelled context, a broken entry iterator or refused parameters mean Finalize is not called, and then no data / meta pin "
+            "is accepted (front_failure_no_pin); all entries fine means every entry is added in order and Finalize gets the last root.",
     "note": "Partial: bookkeeping proved; content proved over the importer model up to hashing and byte encodings, which are validated. Trusted: Lean kernel, hand-written model/spec and view decoder, harness fakes over real libp2p "
             "streams, Go content oracles (go-unixfs / go-merkledag / go-car).",
-    "technique": "Lean 4 theorems over a step model and an importer model + generated constants + differential correspondence on recorded BlockPut / Pin logs and DAG structure dumps + read-back oracle",
+    "technique": "Lean 4 theorems over a step model and an importer model + generated constants + interpreted statement flow of the single DAG service + differential correspondence on recorded BlockPut / Pin logs and DAG structure dumps + read-back oracle",
 }
